@@ -201,3 +201,8 @@ def evaluate(case):
             res.replay_case = dict(scenario=scenario, rekey=case['rekey'])
     res.sample = dict(outcome=trace.outcome, events=len(trace.events))
     return res
+
+
+def sweeps(tier):
+    # deterministic part: flat schedulers of 9 .. 1025 members (just above powers of two)
+    return [S.ladder_sweep(['plain'])]
